@@ -2,7 +2,7 @@
 # usage: tools/seedmatrix.sh [outfile]   -- runs, for every validated seeded change, the checks of the property it was
 # written against and of the related properties, in scratch copies of /repo and /verif (nothing in /repo or /verif changes)
 set -u
-OUT=${1:-/verif/seeded/RESULTS.txt}
+OUT=${1:-/verif/seeded/RESULTS.txt}; FILTER=${2:-.}
 MX=/tmp/verif-mx-$$
 export GOFLAGS=-mod=mod GOPROXY=off GOSUMDB=off GOTOOLCHAIN=local
 mkdir -p $MX
@@ -19,7 +19,7 @@ claimed=$(python3 -c "import json;print(' '.join(c['property_id'] for c in json.
 : > $OUT.tmp
 for d in /verif/seeded/C*-*; do
   s=$(basename $d); id=${s%-*}
-  [ -f $d/patch.diff ] || continue
+  [ -f $d/patch.diff ] || continue; echo $s | grep -Eq "$FILTER" || continue
   if ! git -C $MX/repo apply $d/patch.diff 2>/dev/null; then echo "$s: patch does not apply to HEAD" >> $OUT.tmp; continue; fi
   line="$s:"
   for c in $(related $id); do
